@@ -7109,6 +7109,11 @@ class FrameGO(Frame):
 
     #---------------------------------------------------------------------------
 
+    def __copy__(self) -> 'FrameGO':
+        '''A shallow copy must not share the grow-only columns and blocks containers with this FrameGO.
+        '''
+        return self._to_frame(self.__class__) #type: ignore
+
     def _to_frame(self,
             constructor: tp.Type[Frame]
             ) -> Frame:
